@@ -1190,10 +1190,10 @@ impl RScenario {
         if long {
             // log-uniform over 10^4 .. 3*10^5 (10^6 in thorough)
             let hi: f64 = match tier {
-                Tier::Quick => 300_000.0,
+                Tier::Quick => if matches!(self.prop, RProp::C02) { 1_000_000.0 } else { 300_000.0 },
                 Tier::Thorough => 1_000_000.0,
             };
-            n = (10_000.0 * (hi / 10_000.0).powf(rng.f())) as usize;
+            n = if rng.chance(0.5) { (10_000.0 * (hi / 10_000.0).powf(rng.f())) as usize } else { rng.range((hi * 0.3) as usize, hi as usize) };
             st.bump("probe.long_input_ge_10k");
         }
         let (data, pair, meta): (Vec<(u64, u64)>, bool, String) = match self.prop {
@@ -1244,9 +1244,10 @@ impl RScenario {
         let mut cfg = gen_cfg(&mut rng, n, self.prop);
         if long {
             cfg.policy = match rng.below(10) {
-                0..=5 => Policy::Length,
-                6..=7 => Policy::Balanced,
-                _ => Policy::Lopsided,
+                0..=3 => Policy::Length,
+                4 => Policy::Balanced,
+                5..=6 => Policy::Lopsided,
+                _ => Policy::Composition,
             };
             cfg.threads = rng.pick(&[1usize, 2, 3, 4, 8]);
             cfg.min_len = if rng.chance(0.5) { 1 } else { rng.range(1000, 70_000) };
